@@ -143,7 +143,7 @@ fn run(args: &[String]) {
 
     // watchdog: a case that burns more than `case_cpu_limit` CPU seconds is reported as a hang
     // (the driver turns that into a violation for the WAL case); wall clock only => inconclusive.
-    {
+    if !cfg!(miri) {
         let hang_path = format!("{}.hang", out_path);
         std::thread::spawn(move || loop {
             std::thread::sleep(std::time::Duration::from_millis(200));
